@@ -140,7 +140,7 @@ def gen_c03():
     return rc, out + o2
 
 
-TECH_TRE = ("Lean 4 machine-checked proof; the transform loop nests of the Naive / NoSimd / Ssse3 / Avx2 engines (nested while/for "
+TECH_TRE = ("Lean 4 machine-checked proof; the transform loop nests of the Naive / NoSimd / Ssse3 / Avx2 / Neon engines (nested while/for "
             "loops, skew-table indexes, dist2_mut / dist4_mut / split_at_mut views, GF_MODULUS shortcuts) are TRANSLATED from the "
             "current Rust source on every run (translate/rs2lean_engine.py -> Gen/SrcEngine.lean: shard-operation programs) and "
             "proved equal to the model transforms; the per-chunk kernels of Ssse3 / Avx2 / Neon / NoSimd and utils::xor are TRANSLATED too "
